@@ -136,6 +136,8 @@ def run_scenario(case):
             try:
                 for d in spec.get("mkdirs", []):
                     os.makedirs(os.path.join(cwd, d), exist_ok=True)
+                for ln, target in (spec.get("symlinks") or {}).items():
+                    os.symlink(target, os.path.join(cwd, ln))
                 if spec.get("stdout") == "closedpipe":
                     rfd, wfd = os.pipe()
                     os.close(rfd)
@@ -531,6 +533,57 @@ def scenarios(chk):
         S.append({"kind": "write-failure", "sub": "ENOSPC-redirect-file", "pos": f"write#{when}", "argv": ["put", "-q", 'tee > "out.dkvp", $*', "in.dkvp"],
                   "files": {"in.dkvp": gen.dkvp(_recs(6000, 5))},
                   "strace": {"path": "out.dkvp", "syscall": "write", "error": "ENOSPC", "when": when}, "nontrivial": when > 1})
+    # ---- H. several output sinks, the fault under one that is not the last to be closed ----------
+    # (added after seeded changes C17r2-a/b: a close error of a non-final split file / of a redirect manager that is not
+    # the last one closed must still end the run non-zero)
+    twelve = _recs(12, 7)
+    for fmtflag, ext in (("--ocsv", "csv"), ("--otsv", "tsv")):
+        for r_ in range(1, 13):
+            rr = [list(x) for x in twelve]
+            rr[r_ - 1] = [(("X" if k == "b" else k), v) for k, v in rr[r_ - 1]]
+            if q and r_ not in (4, 5, 6, 10, 12) and fmtflag == "--otsv":
+                continue
+            S.append({"kind": "inexpressible-output", "sub": f"{ext}-schema-change-split-n5", "pos": r_,
+                      "argv": [fmtflag, "split", "-n", "5", "--prefix", "sp", "in.dkvp"], "files": {"in.dkvp": gen.dkvp(rr)}})
+            S.append({"kind": "inexpressible-output", "sub": f"{ext}-schema-change-split-n5-v", "pos": r_,
+                      "argv": [fmtflag, "split", "-v", "-n", "5", "--prefix", "sp", "then", "put", "-q", "true", "in.dkvp"], "files": {"in.dkvp": gen.dkvp(rr)}})
+    twelve_txt = gen.dkvp(twelve)
+    for k in (1, 2, 3):
+        S.append({"kind": "write-failure", "sub": "split-n5-devfull-under-file", "pos": f"file{k}/3",
+                  "argv": ["split", "-n", "5", "--prefix", "sp", "in.dkvp"], "files": {"in.dkvp": twelve_txt},
+                  "symlinks": {f"sp_{k}.dkvp": "/dev/full"},
+                  "control": {"argv": ["split", "-n", "5", "--prefix", "sp", "in.dkvp"], "files": {"in.dkvp": twelve_txt}}})
+    for grp in sorted(set(dict(r)["a"] for r in twelve)):
+        S.append({"kind": "write-failure", "sub": "split-g-devfull-under-file", "pos": f"group={grp}",
+                  "argv": ["split", "-g", "a", "--prefix", "sp", "in.dkvp"], "files": {"in.dkvp": twelve_txt},
+                  "symlinks": {f"sp_{grp}.dkvp": "/dev/full"}})
+    sinks = ['tee > "{}", $*', 'print > "{}", $id', 'emit > "{}", mapsum($*, {{}})', 'dump > "{}", $*']
+    for nst in (2, 3):
+        for bad in range(nst):
+            for si in range(len(sinks)):
+                if q and (si + bad + nst) % 2:
+                    continue
+                stmts = []
+                for j in range(nst):
+                    stmts.append(sinks[(si + j) % len(sinks)].format("/dev/full" if j == bad else f"good{j}.out"))
+                S.append({"kind": "write-failure", "sub": f"redirects-{nst}-devfull", "pos": f"stmt{bad+1}/{nst}:{sinks[si].split()[0]}",
+                          "argv": ["put", "-q", "; ".join(stmts), "in.dkvp"], "files": {"in.dkvp": twelve_txt}})
+    for bad in (0, 1):
+        t = ["/dev/full", "good.out"] if bad == 0 else ["good.out", "/dev/full"]
+        S.append({"kind": "write-failure", "sub": "end-block-redirects-devfull", "pos": f"stmt{bad+1}/2",
+                  "argv": ["put", "-q", f'end {{ emit > "{t[0]}", {{"a": 1}}; dump > "{t[1]}", {{"b": 2}} }}', "in.dkvp"], "files": {"in.dkvp": twelve_txt}})
+        S.append({"kind": "write-failure", "sub": "two-tee-verbs-devfull", "pos": f"verb{bad+1}/2",
+                  "argv": ["tee", t[0], "then", "tee", t[1], "then", "put", "-q", "true", "in.dkvp"], "files": {"in.dkvp": twelve_txt}})
+        S.append({"kind": "write-failure", "sub": "two-puts-devfull", "pos": f"verb{bad+1}/2",
+                  "argv": ["put", "-q", f'tee > "{t[0]}", $*; emit $*', "then", "put", "-q", f'print > "{t[1]}", $id', "in.dkvp"], "files": {"in.dkvp": twelve_txt}})
+    for r_ in (1, 6, 11, 12):
+        rr = [list(x) for x in twelve]
+        rr[r_ - 1] = [(("X" if k == "b" else k), v) for k, v in rr[r_ - 1]]
+        for bad in (0, 1, 2):
+            names = ["o0.csv", "o1.csv", "o2.csv"]
+            stmts = [f'tee > "{nm}", ' + ("$*" if j == bad else "mapexcept($*, \"b\", \"X\")") for j, nm in enumerate(names)]
+            S.append({"kind": "inexpressible-output", "sub": "csv-schema-change-one-of-3-redirects", "pos": f"rec{r_}:stmt{bad+1}/3",
+                      "argv": ["--ocsv", "put", "-q", "; ".join(stmts), "in.dkvp"], "files": {"in.dkvp": gen.dkvp(rr)}})
     huge = gen.dkvp(_recs(20000, 6))    # ~1 MiB >> pipe buffer
     for cmd in ("exit 3", "head -n 1 > /dev/null", "true"):
         for fname, argv in [("print-pipe", ["put", "-q", f'print | "{cmd}", $*', "in.dkvp"]),
